@@ -34,6 +34,9 @@ type reqShape struct {
 	PHLen        int    `json:"placeholder_len"`
 	Seed         uint64 `json:"seed"`
 	LVM          byte   `json:"first_byte"`
+	// Encrypted: the placeholder fields travel inside the authenticator's ciphertext instead of in the clear
+	// (RFC 8915 5.7 lets a client encrypt them; they are then authenticated as well)
+	Encrypted bool `json:"placeholders_encrypted,omitempty"`
 }
 
 func fillBytes(n int, seed uint64) []byte {
@@ -64,15 +67,20 @@ func sealRequest(s reqShape, cookie, c2s []byte) (pkt, uid []byte, txTime []byte
 	pkt = append(pkt, hdr...)
 	pkt = append(pkt, extField(0x104, uid)...)
 	pkt = append(pkt, extField(0x204, cookie)...)
+	var plain []byte
 	for i := 0; i < s.Placeholders; i++ {
-		pkt = append(pkt, extField(0x304, make([]byte, s.PHLen))...)
+		if s.Encrypted {
+			plain = append(plain, extField(0x304, make([]byte, s.PHLen))...)
+		} else {
+			pkt = append(pkt, extField(0x304, make([]byte, s.PHLen))...)
+		}
 	}
 	a, err := miscreant.NewAEAD("AES-CMAC-SIV", c2s, 16)
 	if err != nil {
 		panic(err)
 	}
 	nonce := fillBytes(16, s.Seed+3)
-	ct := a.Seal(nil, nonce, nil, pkt)
+	ct := a.Seal(nil, nonce, plain, pkt)
 	body := make([]byte, 4, 4+16+len(ct))
 	binary.BigEndian.PutUint16(body, 16)
 	binary.BigEndian.PutUint16(body[2:], uint16(len(ct)))
@@ -82,7 +90,7 @@ func sealRequest(s reqShape, cookie, c2s []byte) (pkt, uid []byte, txTime []byte
 	return pkt, uid, hdr[40:48]
 }
 
-var recSrv = ev.New("c11/server-replies", "rapid: NTS requests sealed by the harness (own field encoder + miscreant AES-SIV) under the C2S key of a cookie issued under the listener's current server key, with a unique identifier of 32..300 bytes (dense at 32, 64, 112..124, 248), one cookie and 0..12 placeholders of cookie size (or another size), sent to the real IP listener. Oracle: exactly one reply; it fits nts.MaxPacketLen; well-formed for the harness's own walker; echoes the identifier; verifies under S2C; carries min(requested, as many 124-byte cookies as fit the maximum packet size for this identifier length) fresh, pairwise distinct cookies, each opening under a currently valid server key to the session's keys. One evaluation = one request. Non-trivial: identifier longer than 32 bytes or more than 8 fields requested; distinct by request shape")
+var recSrv = ev.New("c11/server-replies", "rapid: NTS requests sealed by the harness (own field encoder + miscreant AES-SIV) under the C2S key of a cookie issued under the listener's current server key, with a unique identifier of 32..300 bytes (dense at 32, 64, 112..124, 248), one cookie and 0..12 placeholders of cookie size (or another size; in the clear or, for a quarter of the requests, inside the ciphertext), sent to the real IP listener. Oracle: exactly one reply; it fits nts.MaxPacketLen; well-formed for the harness's own walker; echoes the identifier; verifies under S2C; carries min(requested, as many 124-byte cookies as fit the maximum packet size for this identifier length) fresh, pairwise distinct cookies, each opening under a currently valid server key to the session's keys. One evaluation = one request. Non-trivial: identifier longer than 32 bytes or more than 8 fields requested; distinct by request shape")
 
 func TestPropServerReplies(t *testing.T) { serverReplies(t, "ip", recSrv, 600, 6000) }
 
@@ -136,6 +144,7 @@ func serverReplies(t *testing.T, transport string, recSrv *ev.Recorder, nq, nth 
 				Seed:         rapid.Uint64().Draw(t, "seed"),
 				LVM:          rapid.SampledFrom([]byte{0x23, 0x23, 0x1b, 0xe3}).Draw(t, "lvm"),
 			}
+			s.Encrypted = s.Placeholders > 0 && rapid.IntRange(0, 3).Draw(t, "encrypted-placeholders") == 0
 			if rapid.IntRange(0, 5).Draw(t, "odd-placeholder") == 0 {
 				s.PHLen = rapid.SampledFrom([]int{0, 4, 24, 100, 128, 200}).Draw(t, "phlen")
 			}
@@ -176,7 +185,7 @@ func serverReplies(t *testing.T, transport string, recSrv *ev.Recorder, nq, nth 
 				}
 			}
 			requested := 1 + s.Placeholders
-			desc := fmt.Sprintf("identifier of %d bytes, 1 cookie + %d placeholders of %d bytes (request %d bytes)", s.UIDLen, s.Placeholders, s.PHLen, len(pkt))
+			desc := fmt.Sprintf("identifier of %d bytes, 1 cookie + %d placeholders of %d bytes%s (request %d bytes)", s.UIDLen, s.Placeholders, s.PHLen, map[bool]string{true: " inside the ciphertext", false: ""}[s.Encrypted], len(pkt))
 			if len(replies) == 0 {
 				t.Fatalf("authenticated request (%s) was not answered", desc)
 			}
@@ -253,7 +262,10 @@ func serverReplies(t *testing.T, transport string, recSrv *ev.Recorder, nq, nth 
 			if want < requested {
 				ls = append(ls, "not-all-fit")
 			}
-			recSrv.Eval(s.UIDLen > 32 || requested > 8, ev.Hash(s.UIDLen, s.Placeholders, s.PHLen, int(s.LVM)), func() any {
+			if s.Encrypted {
+				ls = append(ls, "placeholders-encrypted")
+			}
+			recSrv.Eval(s.UIDLen > 32 || requested > 8, ev.Hash(s.UIDLen, s.Placeholders, s.PHLen, int(s.LVM), s.Encrypted), func() any {
 				return map[string]any{"shape": s, "request_prefix": hex.EncodeToString(pkt[:64]), "reply_len": len(r), "fresh_cookies": fresh}
 			}, ls...)
 		}
